@@ -66,7 +66,12 @@ class C01(E1Check):
     def configs(self):
         # the depth-bounded runs plus runs to the fixpoint within 2 stored points (histories of any length)
         extra = [] if self.tier == "quick" else closure_configs(("mem", "csv"))
-        return super().configs() + extra
+        cfgs = super().configs()
+        if self.tier == "quick":
+            for c in cfgs:  # quick: file-backed configurations one level shallower
+                if c["storage"] == "csv":
+                    c["D"] = 3
+        return cfgs + extra
 
     def budget(self):
         return 600 if self.tier == "quick" else 2400
